@@ -36,7 +36,7 @@ enum { C_OPENDIR = 1, C_READDIR, C_DIRENT, C_STAT, C_OPEN, C_READ, C_READLINK, C
 static const char *call_names[] = {"?", "opendir", "readdir", "dirent", "stat", "open", "read", "readlink", "realpath"};
 
 enum { OV_MODE = 1, OV_PERM = 2, OV_UID = 4, OV_GID = 8, OV_NLINK = 16, OV_SIZE = 32, OV_BLOCKS = 64,
-       OV_MTIME = 128, OV_ATIME = 256, OV_CTIME = 512, OV_BTIME = 1024, OV_INO = 2048, OV_DEV = 4096, OV_DINO = 8192 };
+       OV_MTIME = 128, OV_ATIME = 256, OV_CTIME = 512, OV_BTIME = 1024, OV_INO = 2048, OV_DEV = 4096, OV_DINO = 8192, OV_NOBTIME = 16384 };
 
 typedef struct Node {
     unsigned long ino;
@@ -259,6 +259,7 @@ static void parse_plan(char *text) {
                             else if (!strcmp(t, "btime")) { n->ov |= OV_BTIME; n->o_btime = strtoll(v, NULL, 10); }
                             else if (!strcmp(t, "ino")) { n->ov |= OV_INO; n->o_ino = strtoul(v, NULL, 10); }
                             else if (!strcmp(t, "dev")) { n->ov |= OV_DEV; n->o_dev = strtoul(v, NULL, 10); }
+                            else if (!strcmp(t, "nobtime")) { n->ov |= OV_NOBTIME; } /* a file system without birth times */
                             else if (!strcmp(t, "dino")) { n->ov |= OV_DINO; n->o_dino = strtoul(v, NULL, 10); } /* d_ino of a mount point: the covered directory's number */
                             else die("plan: stat field");
                         }
@@ -440,6 +441,7 @@ static void overlay_statx(Node *n, struct statx *sx) {
     if (n->ov & OV_ATIME) { ts_from_ns(n->o_atime, &s, &ns); sx->stx_atime.tv_sec = s; sx->stx_atime.tv_nsec = ns; }
     if (n->ov & OV_CTIME) { ts_from_ns(n->o_ctime, &s, &ns); sx->stx_ctime.tv_sec = s; sx->stx_ctime.tv_nsec = ns; }
     if (n->ov & OV_BTIME) { ts_from_ns(n->o_btime, &s, &ns); sx->stx_btime.tv_sec = s; sx->stx_btime.tv_nsec = ns; sx->stx_mask |= STATX_BTIME; }
+    if (n->ov & OV_NOBTIME) { sx->stx_mask &= ~STATX_BTIME; sx->stx_btime.tv_sec = 0; sx->stx_btime.tv_nsec = 0; }
 }
 
 /* common stat implementation; returns 0 / -1 with errno */
